@@ -72,6 +72,7 @@ Inductive supported : obs -> Prop :=
 | S_elem z : supported (OElem z)
 | S_reverse : supported OReverse
 | S_flatten : supported OFlatten
+| S_sort : supported OSort
 | S_seq : supported OSeq
 | S_deepseq : supported ODeepSeq
 | S_serde : supported OSerde
@@ -687,6 +688,37 @@ Section Rel.
       apply fun2_rel; [apply H | exact IH].
     Qed.
 
+    Definition PairL (x y : list thunk * list thunk) : Prop :=
+      Forall2 RelT (fst x) (fst y) /\ Forall2 RelT (snd x) (snd y).
+
+    Lemma partition_rel : forall f1 f2, RelT f1 f2 -> forall xs1 xs2, Forall2 RelT xs1 xs2 ->
+      forall r1 r2 w1 w2, Forall2 RelT r1 r2 -> Forall2 RelT w1 w2 ->
+      RelR PairL (partition_go ev f1 xs1 r1 w1) (partition_go ev f2 xs2 r2 w2).
+    Proof.
+      intros f1 f2 HF. induction 1 as [|x1 x2 l1 l2 H _ IH]; intros r1 r2 w1 w2 HR HW; cbn.
+      - constructor. split; assumption.
+      - eapply relR_bind; [apply (H m)|]. intros vx1 vx2 HVx.
+        eapply relR_bind; [apply as_num_rel, HVx|]. intros a ? <-.
+        eapply relR_bind; [apply (HF m)|]. intros vf1 vf2 HVf.
+        eapply relR_bind; [apply as_num_rel, HVf|]. intros b ? <-.
+        destruct (Z.ltb a b); apply IH; auto; apply Forall2_app; auto.
+    Qed.
+
+    Lemma sort_rel : forall fuel e1 e2, Forall2 RelT e1 e2 ->
+      RelR (Forall2 RelT) (sort_go ev fuel e1) (sort_go ev fuel e2).
+    Proof.
+      induction fuel as [|fuel IH]; intros e1 e2 H.
+      - destruct H as [|x1 x2 l1 l2 Hx Hl]; cbn; [constructor; constructor|].
+        destruct Hl; [constructor; auto | (apply relR_err; discriminate)].
+      - destruct H as [|x1 x2 l1 l2 Hx Hl]; cbn; [constructor; constructor|].
+        destruct Hl as [|y1 y2 l1 l2 Hy Hl]; [constructor; auto|].
+        eapply relR_bind; [apply partition_rel; auto; constructor; auto|].
+        intros [rg1 wr1] [rg2 wr2] [HR HW]. cbn [fst snd] in *.
+        eapply relR_bind; [apply IH, HR|]. intros sr1 sr2 HSR.
+        eapply relR_bind; [apply IH, HW|]. intros sw1 sw2 HSW.
+        constructor. apply Forall2_app; auto.
+    Qed.
+
     Variable q : obs.
     Hypothesis q_cong : forall t1 t2, RelT t1 t2 -> RelT (TObs q t1) (TObs q t2).
 
@@ -885,6 +917,12 @@ Section Rel.
     - (* flatten *) arr_arg HT m EBlameNeg. apply flatten_rel.
       + eapply ArrR_elems; eauto; apply same_ctrs_refl.
       + apply ArrR_of_elems. constructor.
+    - (* sort *) arr_arg HT m EBlameNeg. pose proof (ArrR_length _ _ _ _ HA) as L.
+      destruct es1 as [|a1 [|b1 l1]], es2 as [|a2 [|b2 l2]]; try discriminate;
+        try (constructor; apply RV_arr'; exact HA).
+      cbn [List.length] in *. rewrite L.
+      eapply relR_bind; [apply sort_rel; eapply ArrR_elems; eauto; apply same_ctrs_refl|].
+      intros r1 r2 HR. constructor. apply RV_arr'. now apply ArrR_of_elems.
     - (* seq *) apply (HT m).
     - (* deepseq *) eapply relR_bind with (RA := eq); [now apply force_rel|]. intros. apply (HT m).
     - (* serde *)
